@@ -91,9 +91,9 @@ CORRUPTIONS = {
         ("unitarity of Q", lambda e: e["finite"], _set(unitary_units=10 ** 7), "UnitaryQ"),
     ],
     "SketchTrace": [
-        ("converged flag", lambda e: e["hist_len"] > 0, lambda e: e.__setitem__("converged", not e["converged"]), "FlagIsLastBelowTol"),
+        ("converged flag", lambda e: e["hist_len"] > 0, lambda e: e.__setitem__("converged", not e["converged"]), "M:FlagIsLastBelowTol"),
         ("true residual of a converged run", lambda e: e["converged"], _set(true_res_lg=0), "ConvergedSound"),
-        ("iteration count", lambda e: True, lambda e: e.__setitem__("iters", e["iters"] + 1), "ItersIsHistLen"),
+        ("iteration count", lambda e: True, lambda e: e.__setitem__("iters", e["iters"] + 1), "M:ItersIsHistLen"),
         ("last history entry", lambda e: e["proxy_known"] and e["hist_len"] > 0 and e["last_lg"] > -2000, lambda e: e.__setitem__("last_lg", e["last_lg"] + 60), "HistoryOfReturnedIterate"),
     ],
     "HistoryTrace": [
